@@ -16,3 +16,7 @@ def run(ses):
     cacheunit.options_obligations(ses, "C10")
     cache_e2e.histories(ses, "C10")
     cache_e2e.partial_cache_sequences(ses, "C10")
+    cacheunit.key_obligations(ses, "C10")  # one index file per image: distinct images never share a cache location
+    from props import c08
+
+    c08.run(ses, "C10")  # the codec lemma (see c07)
